@@ -371,6 +371,12 @@ structure Pending where
 def isNew (objs : List Obj) (p : Pending) (h : H) : Bool :=
   p.added.contains h || (match objs[h]? with | some o => o.oid.isNone | none => false)
 
+/-- the branch taken for a registered object in `_commit`; `done` = handles stored so far -/
+def mustStore (objs : List Obj) (p : Pending) (done : List H) (h : H) : Bool :=
+  (p.added.contains h && !done.contains h)           -- `oid in self._added`  (stored ones are popped)
+  || !((done.contains h && isNew objs p h)           -- `oid in self._creating`
+       || !p.changed.contains h)                     -- `not obj._p_changed`
+
 /-- `Connection._commit`: the loop over `_registered_objects`.  `done` = handles stored so far
     (`_added` minus / `_creating` plus the new ones among them). -/
 def commitLoop (env : Env) (objs : List Obj) (p : Pending) (fuel : Nat) :
@@ -384,9 +390,7 @@ def commitLoop (env : Env) (objs : List Obj) (p : Pending) (fuel : Nat) :
       | none => .error .badState                                   -- `assert oid`
       | some _ =>
         if curJar env o s h ≠ env.own then .error (.invalidRef 4)  -- `obj._p_jar is not self`
-        else if (p.added.contains h && !done.contains h)           -- `oid in self._added`
-              || !((done.contains h && isNew objs p h)             -- `oid in self._creating`
-                   || !p.changed.contains h) then                  -- `not obj._p_changed`
+        else if mustStore objs p done h then
           match storeLoop env objs fuel { s with stack := [h] } with
           | .error e => .error e
           | .ok (out, s1) =>
@@ -533,5 +537,70 @@ def lstep (lenv : LEnv) (ls : LState) : LOp → LState
   | .activate h => match connSetstate lenv ls h with | .ok ls' => ls' | .error _ => ls
 
 def lrun (lenv : LEnv) (ops : List LOp) : LState := ops.foldl (lstep lenv) LState.init
+
+/-! ### specification vocabulary (used by `Props/C14.lean`) -/
+
+/-- token `tk` is the reference `persistent_id` has to write for leaf `l`, given the oids and jars
+    the objects have in state `s`: the target's oid as bytes, in the format its class and owner
+    call for -/
+def TokFor (env : Env) (objs : List Obj) (s : WState) : PLeaf → Tok → Prop
+  | .strong t, tk =>
+    ∃ o oid, objs[t]? = some o ∧ curOid o s t = some oid ∧
+      if curJar env o s t = env.own then
+        tk = (if o.newargs.isSome then .oid (.bytes oid) else .tup (.bytes oid) o.cls)
+      else ∃ d c, curJar env o s t = .conn d c ∧
+        tk = (if o.newargs.isSome then .multiOid d (.bytes oid) else .multi d (.bytes oid) o.cls)
+  | .weak t, tk =>
+    ∃ o oid, objs[t]? = some o ∧ curOid o s t = some oid ∧
+      if curJar env o s t = env.own then tk = .weak (.bytes oid) none
+      else ∃ d c, curJar env o s t = .conn d c ∧ tk = .weak (.bytes oid) (some d)
+
+/-- record `r` is object `o` with every persistent leaf replaced by its reference token -/
+def RecFor (env : Env) (objs : List Obj) (s : WState) (o : Obj) (r : Record) : Prop :=
+  r.cls = o.cls ∧
+  (match o.newargs, r.args with
+   | none, none => True
+   | some a, some a' => Tree.Rel (TokFor env objs s) a a'
+   | _, _ => False) ∧
+  Tree.Rel (TokFor env objs s) o.state r.state
+
+/-- the oids of the ordinary references among the leaves `ls`: strong, and to an object owned by
+    the writer's own connection (same database); in order, with repetitions -/
+def strongRefs (env : Env) (objs : List Obj) (s : WState) : List PLeaf → List Oid
+  | [] => []
+  | .weak _ :: ls => strongRefs env objs s ls
+  | .strong t :: ls =>
+    match objs[t]? with
+    | none => strongRefs env objs s ls
+    | some o =>
+      if curJar env o s t = env.own then
+        match curOid o s t with
+        | some oid => oid :: strongRefs env objs s ls
+        | none => strongRefs env objs s ls
+      else strongRefs env objs s ls
+
+/-- the objects a commit has to store: the registered ones that were added or changed, and every
+    object without an oid that a stored object refers to (strongly or weakly) -/
+inductive Stored (objs : List Obj) (p : Pending) : H → Prop
+  | root {h} : h ∈ p.registered → (h ∈ p.added ∨ h ∈ p.changed) → Stored objs p h
+  | step {x y o oy} : Stored objs p x → objs[x]? = some o → (∃ l ∈ o.leaves, l.target = y) →
+      objs[y]? = some oy → oy.oid = none → Stored objs p y
+
+/-- the database an object owned by `j` lives in (an object without jar is adopted by the writer) -/
+def jarDb (env : Env) : Jar → Db
+  | .conn d _ => d
+  | .none => env.db
+
+/-- loaded leaf `lf` (in loading session `ls`) stands for what in-memory leaf `l` referred to when
+    the commit ended in writer state `sf`: a strong reference became THE in-memory object with the
+    target's oid in the target's database; a weak reference became a WeakRef with the target's oid
+    (and the target's database name unless it is the writer's own connection) -/
+def SameTarget (env : Env) (objs : List Obj) (sf : WState) (ls : LState) : PLeaf → LLeaf → Prop
+  | .strong t, lf =>
+    ∃ (o : Obj) (oid : Oid) (h : Nat) (x : LObj), objs[t]? = some o ∧ curOid o sf t = some oid ∧
+      lf = .obj h ∧ ls.heap[h]? = some x ∧ x.oid = oid ∧ x.db = jarDb env (curJar env o sf t)
+  | .weak t, lf =>
+    ∃ (o : Obj) (oid : Oid), objs[t]? = some o ∧ curOid o sf t = some oid ∧
+      lf = .wref (if curJar env o sf t = env.own then none else some (jarDb env (curJar env o sf t))) oid
 
 end ZodbModel.Refs
